@@ -23,7 +23,9 @@ META = {
             "{0,3,8,20,29,35} x lengths {1,5,8,12} (quick pairs: lengths {5,12}; overlapping, unordered, beyond EOF), "
             "alone and after prefetch() [+ one step, or seek+read]; thorough adds 3-chunk lists and 2-chunk lists "
             "after prefetch on a sub-grid.  Every schedule within 1 scheduling deviation (2 for the small programs "
-            "in thorough); bytes compared with the served file; deadlock/livelock of a call = violation.",
+            "in thorough); bytes compared with the served file; deadlock/livelock of a call = violation.  Plus [two "
+            "connections in one process] two client/server pairs serving different files, used alternately "
+            "(prefetch/read/readv): each reads its own bytes.",
     "note": "delay bounding: every departure from the deterministic default schedule costs 1; atomicity = "
             "synchronisation/socket operations; the spin-wait in SFTPFile._async_response is given a fair lock (a "
             "spinning thread yields); virtual time; server honest apart from short reads",
@@ -238,6 +240,77 @@ def make_body(scn, holder):
 SCHED_KW = {"horizon": S.EPOCH + HORIZON}
 
 
+# ----------------------------------------------------------------------------- two connections in one process
+def make_two_body(tscn):
+    """Two independent SFTP connections (two client/server pairs, two different files) used alternately by one
+    application thread: what each one reads must be its own file's bytes (nothing of the bookkeeping of one
+    connection may be visible to the other)."""
+    size, mc, steps2 = tscn
+
+    def body(s):
+        contents = [content_of(size), bytes(reversed(content_of(size)))]
+        base = SP.scratch_root()
+        pairs, files = [], []
+        try:
+            for i in range(2):
+                root = os.path.join(base, "conn%d" % i)
+                os.makedirs(root, exist_ok=True)
+                with open(os.path.join(root, NAME), "wb") as fh:
+                    fh.write(contents[i])
+                pr = SP.SftpPair(root, SP.FaultPlan())
+                pairs.append(pr)
+                files.append(pr.open(NAME, "rb"))
+            s.branching = True
+            out = []
+            pos = [0, 0]
+            for op in steps2:
+                for i in (0, 1):
+                    f = files[i]
+                    if op[0] == "prefetch":
+                        f.prefetch(max_concurrent_requests=mc)
+                    elif op[0] == "read":
+                        got = f.read(op[1])
+                        exp = contents[i][pos[i]:pos[i] + op[1]]
+                        pos[i] += len(exp)
+                        out.append((i, op, got == exp, got, exp))
+                    elif op[0] == "readv":
+                        got = list(f.readv(list(op[1]), mc))
+                        exp = [contents[i][o:o + n] for o, n in op[1]]
+                        out.append((i, op, got == exp, got, exp))
+            s.branching = False
+            for f in files:
+                f.close()
+            for pr in pairs:
+                pr.finish(s)
+            return out
+        finally:
+            for pr in pairs:
+                pr.teardown()
+    return body
+
+
+def run_two(item, acc):
+    tier, tscn, bound = item
+
+    def on_exec(ex):
+        acc.ev()
+        acc.nt(repr(("two", tscn, tuple(ex.choices))))
+        if ex.outcome != "ok":
+            kind = "never-returns" if ex.outcome in ("deadlock", "livelock") else "exception"
+            acc.violation("%s:%s:two-connections-in-one-process" % (kind, type(ex.error).__name__ if kind == "exception" else ex.outcome),
+                          {"scn": list(tscn), "err": repr(ex.error)[:300]}, {"two": list(tscn), "choices": list(ex.choices)})
+            return
+        for i, op, ok, got, exp in ex.value:
+            if not ok:
+                acc.violation("wrong-bytes:%s:two-connections-in-one-process" % op[0],
+                              {"scn": list(tscn), "connection": i, "op": list(op), "got": got, "expected": exp,
+                               "choices": list(ex.choices)}, {"two": list(tscn), "choices": list(ex.choices)})
+                break
+    res = explore.explore(make_two_body(tscn), bound, "delay", cap=5000, on_exec=on_exec, sched_kw=SCHED_KW)
+    acc.count("two_connection_schedules", res.executions)
+    SP.remove_scratch()
+
+
 def judge(scn, ex, ctx):
     """None or (key, detail)."""
     prog = scn["prog"]
@@ -363,6 +436,11 @@ def main(tier):
     scns = scenarios(tier)
     items = [(tier, ch) for ch in enum.chunks(scns, max(64, core.NCPU * 8))]
     ck.merge(core.pmap(items, run_scn))
+    two = [(tier, (size, mc, prog), 0 if tier == "quick" else 1)
+           for size in (24,) for mc in (None, 1)
+           for prog in ((("prefetch",), ("read", 20)), (("prefetch",), ("readv", ((3, 8), (20, 12)))),
+                        (("readv", ((0, 12), (8, 5))),), (("prefetch",), ("read", 5), ("read", 20)))]
+    ck.merge(core.pmap(two, run_two))
     if any("cap of" in n for n in ck.acc.notes):
         ck.cap_hit("execution cap per scenario")
     ck.extra["bound"] = {"scenarios": len(scns), "bounding": "delay", "max_deviations": 1 if tier == "quick" else 2}
@@ -373,6 +451,12 @@ def main(tier):
 def replay(rec):
     SP.scale(8)
     r = rec["replay"]
+    if "two" in r:
+        t = r["two"]
+        tscn = (t[0], t[1], tuple((op[0],) + tuple(tuple(tuple(c) for c in x) if isinstance(x, list) else x for x in op[1:]) for op in t[2]))
+        ex = explore.replay(make_two_body(tscn), r["choices"], "delay", SCHED_KW)
+        print(ex.outcome, ex.error, ex.value)
+        return 1 if (ex.outcome != "ok" or any(not x[2] for x in ex.value)) else 0
     scn = norm(r["scn"])
     holder = [None]
     body = make_body(scn, holder)
